@@ -10,9 +10,9 @@ import ProphyModel.FilesL
 namespace Prophy.Tables
 
 /-- `Expr.unwritable` (Lemmas/ExprCppLex.lean, `C14_unwritable_is_regex`) is the scan of exactly this regular
-    expression: control characters other than TAB, `--`, `++`, a hexadecimal literal ending in e/E before a sign -/
+    expression: control characters other than TAB, `--`, `++`, a hexadecimal literal (not inside a name) ending in e/E before a sign -/
 theorem unwritable_regex_is_source :
-    Generated.unwritableRegex = "[\\x00-\\x08\\x0a-\\x1f]|--|\\+\\+|0[xX][0-9a-fA-F]*[eE][-+]" := by decide
+    Generated.unwritableRegex = "[\\x00-\\x08\\x0a-\\x1f]|--|\\+\\+|(?<![A-Za-z0-9_])0[xX][0-9a-fA-F]*[eE][-+]" := by decide
 
 /-- the depth limit of the file processor model is the one of the code -/
 theorem include_depth_limit_is_source : FilesL.depthLimit = Generated.includeDepthLimit := by decide
@@ -25,8 +25,8 @@ theorem cpp_runtime_names_cover :
      "int8_t", "int16_t", "int32_t", "int64_t", "uint8_t", "uint16_t", "uint32_t", "uint64_t"].all
       (fun n => Generated.cppRuntimeNames.contains n) = true := by decide
 
-/-- the nested names of the raw C++ header (blocks `part<N>`, the union's `_discriminator`) are refused by `--cpp_out` -/
+/-- the nested names of the raw C++ header (blocks `part2`, `part3`, ..., the union's `_discriminator`) are refused by `--cpp_out` -/
 theorem cpp_raw_generated_names_is_source :
-    Generated.cppRawGeneratedNames = "(part[0-9]+|_discriminator)\\Z" := by decide
+    Generated.cppRawGeneratedNames = "(part([2-9]|[1-9][0-9]+)|_discriminator)\\Z" := by decide
 
 end Prophy.Tables
